@@ -81,6 +81,7 @@ type leaf struct {
 	streamOffers int           // accepted updates after the initial subscribers registered
 	streamIncs   map[int]bool  // incarnations updated after registration
 	delNotis     int           // delete notifications (one per removed leaf) after registration
+	updTicks     [][2]int64    // mode joinrace: logical (call, return) ticks of every writer-phase update
 }
 
 func newLeaf(p []string) *leaf {
@@ -108,6 +109,11 @@ type sub struct {
 	paths       [][]string
 	updatesOnly bool
 	late        bool
+	joiner      bool // mode joinrace: subscribes while the writer is running
+	startAtOp   int  // joiner: writer step at which Subscribe is called
+	launched    int32
+	callTick    int64 // joiner: logical tick just before Subscribe was called
+	enteredTick int64 // joiner: logical tick when its sender reached the gate (registration is over by then)
 	pattern     int
 	gateAt      int // response index held inside Send
 	releaseAt   int // pOne: writer progress at which the gate opens
@@ -185,7 +191,11 @@ func (s *sub) walkHits(p []string) int {
 }
 
 func (s *sub) describe() map[string]interface{} {
-	return map[string]interface{}{"idx": s.idx, "paths": s.paths, "updates_only": s.updatesOnly, "late": s.late, "stall": patName[s.pattern], "gate_at_response": s.gateAt, "release_at_writer_op": s.releaseAt}
+	m := map[string]interface{}{"idx": s.idx, "paths": s.paths, "updates_only": s.updatesOnly, "late": s.late, "stall": patName[s.pattern], "gate_at_response": s.gateAt, "release_at_writer_op": s.releaseAt}
+	if s.joiner {
+		m["subscribes_at_writer_op"] = s.startAtOp
+	}
+	return m
 }
 
 // ---- trial -----------------------------------------------------------------
@@ -220,6 +230,12 @@ type trial struct {
 	panicked    string
 
 	lastGen int // generation of the last sentinels written
+
+	tick        int64 // logical clock (mode joinrace)
+	activeWalks int32 // joiners between subscribe.walk.begin and subscribe.walk.end
+	rdvMu       sync.Mutex
+	rdvWaiting  map[interface{}]*int32
+	rdvMet      int64
 
 	cbCalls, cbMaxQ, cbDupSum int64
 	start                     time.Time
@@ -259,11 +275,18 @@ func newTrial(r *vlib.Run, mode string, num int, rng *rand.Rand, scale int) *tri
 	switch mode {
 	case "stall":
 		t.K = logUniform(rng, 10, 2000)
+	case "joinrace":
+		// Updates hammer a few EXISTING leaves while subscriptions start.
+		t.K = logUniform(rng, 200, 2000)
+		t.D = []int{1, 1, 2, 2, 3}[rng.Intn(5)]
+		t.procs = []int{4, 16}[rng.Intn(2)]
+	case "idlesync":
+		t.K = logUniform(rng, 10, 100)
 	default:
 		t.K = logUniform(rng, 10, 400)
 	}
 	switch mode {
-	case "timeout":
+	case "timeout", "idlesync":
 		t.timeout = time.Duration([]int{50, 100, 200}[rng.Intn(3)]*scale) * time.Millisecond
 	case "syncstall":
 		t.timeout = time.Duration(20*scale) * time.Millisecond
@@ -298,7 +321,7 @@ func newTrial(r *vlib.Run, mode string, num int, rng *rand.Rand, scale int) *tri
 		return rng.Intn(t.D)
 	}
 	nDel := 0
-	if rng.Intn(4) != 0 {
+	if rng.Intn(4) != 0 && mode != "joinrace" {
 		nDel = 1 + rng.Intn(1+min(t.D, 6))
 		if nDel > t.K/4 {
 			nDel = t.K / 4
@@ -337,6 +360,9 @@ func newTrial(r *vlib.Run, mode string, num int, rng *rand.Rand, scale int) *tri
 
 	// Subscribers.
 	nSubs := 2 + rng.Intn(4)
+	if mode == "joinrace" {
+		nSubs = 2
+	}
 	var covering [][]string
 	for _, p := range pathPool {
 		if model.Compat(p, t.leaves[0].path) {
@@ -345,7 +371,7 @@ func newTrial(r *vlib.Run, mode string, num int, rng *rand.Rand, scale int) *tri
 	}
 	prefilled := make([]bool, t.D)
 	for i := range prefilled {
-		prefilled[i] = rng.Intn(10) < 6
+		prefilled[i] = rng.Intn(10) < 6 || mode == "joinrace"
 	}
 	for i := 0; i < nSubs; i++ {
 		s := &sub{idx: i, open: make(chan struct{}), entered: make(chan struct{}), done: make(chan struct{}), pattern: pNever}
@@ -419,6 +445,16 @@ func newTrial(r *vlib.Run, mode string, num int, rng *rand.Rand, scale int) *tri
 		s.releaseAt = 1 + rng.Intn(len(t.ops))
 		t.subs = append(t.subs, s)
 	}
+	if mode == "joinrace" {
+		// Joiners: plain subscriptions started while the writer runs, held from
+		// their very first response until the writer is done.
+		for i, nj := 0, 3+rng.Intn(4); i < nj; i++ {
+			s := &sub{idx: len(t.subs), open: make(chan struct{}), entered: make(chan struct{}), done: make(chan struct{}), pattern: pUntilDone, joiner: true}
+			s.paths = [][]string{covering[rng.Intn(len(covering))]}
+			s.startAtOp = rng.Intn(len(t.ops)*9/10 + 1)
+			t.subs = append(t.subs, s)
+		}
+	}
 	// Prefill decided above (so that gate positions could be predicted); carried out in run().
 	t.prefill = prefilled
 	return t
@@ -443,6 +479,14 @@ func (t *trial) config() map[string]interface{} {
 }
 
 // ---- writes ----------------------------------------------------------------
+
+func (t *trial) now() int64 { return atomic.AddInt64(&t.tick, 1) }
+
+func (t *trial) noteTicks(l *leaf, call, ret int64) {
+	if t.mode == "joinrace" && t.streamPhase {
+		l.updTicks = append(l.updTicks, [2]int64{call, ret})
+	}
+}
 
 func (t *trial) noteUpdate(l *leaf, v int64) {
 	if !l.exists {
@@ -488,7 +532,9 @@ func (t *trial) updateLeaf(l *leaf, split bool) {
 	} else {
 		n = gen.Update(target, "", t.ts, nil, gen.Path(false, l.path...), gen.I(t.ctr))
 	}
+	call := t.now()
 	t.gnmi(n)
+	t.noteTicks(l, call, t.now())
 	t.noteUpdate(l, t.ctr)
 }
 
@@ -505,8 +551,11 @@ func (t *trial) write(op wop) {
 			vals = append(vals, t.ctr)
 			n.Update = append(n.Update, &pb.Update{Path: gen.Path(false, t.leaves[li].path...), Val: gen.I(t.ctr)})
 		}
+		call := t.now()
 		t.gnmi(n)
+		ret := t.now()
 		for i, li := range op.leaves {
+			t.noteTicks(t.leaves[li], call, ret)
 			t.noteUpdate(t.leaves[li], vals[i])
 		}
 	case kDel:
@@ -520,6 +569,11 @@ func (t *trial) write(op wop) {
 func (t *trial) writerLoop() {
 	defer close(t.writerDone)
 	for i, op := range t.ops {
+		for _, s := range t.subs {
+			if s.joiner && s.startAtOp == i {
+				t.launch(s)
+			}
+		}
 		t.write(op)
 		atomic.AddInt64(&t.progress, 1)
 		for _, s := range t.subs {
@@ -534,6 +588,9 @@ func (t *trial) writerLoop() {
 	for _, s := range t.subs {
 		if s.pattern == pOne {
 			s.release()
+		}
+		if s.joiner && atomic.LoadInt32(&s.launched) == 0 {
+			t.launch(s)
 		}
 	}
 	t.writeSentinels(0)
@@ -667,9 +724,45 @@ func parkedIn(block string) (pkg string, parked bool) {
 	return "", true
 }
 
+// rendezvous lines up two goroutines that reach the same key: the first waits
+// (spinning, at most ~60 us) for a second one; both then go on together.
+func (t *trial) rendezvous(key interface{}) {
+	t.rdvMu.Lock()
+	if f := t.rdvWaiting[key]; f != nil {
+		delete(t.rdvWaiting, key)
+		atomic.StoreInt32(f, 1)
+		t.rdvMu.Unlock()
+		atomic.AddInt64(&t.rdvMet, 1)
+		return
+	}
+	var flag int32
+	if t.rdvWaiting == nil {
+		t.rdvWaiting = map[interface{}]*int32{}
+	}
+	t.rdvWaiting[key] = &flag
+	t.rdvMu.Unlock()
+	deadline := time.Now().Add(60 * time.Microsecond)
+	for n := 0; atomic.LoadInt32(&flag) == 0; n++ {
+		if n%64 == 63 && time.Now().After(deadline) {
+			t.rdvMu.Lock()
+			if t.rdvWaiting[key] == &flag {
+				delete(t.rdvWaiting, key)
+			}
+			t.rdvMu.Unlock()
+			return
+		}
+	}
+}
+
 // ---- the run ---------------------------------------------------------------
 
 func (t *trial) startSub(s *sub) {
+	t.prep(s)
+	t.launch(s)
+}
+
+// prep builds the request and the stream of a subscription; launch calls Subscribe.
+func (t *trial) prep(s *sub) {
 	sl := &pb.SubscriptionList{Prefix: &pb.Path{Target: target}, Mode: pb.SubscriptionList_STREAM, UpdatesOnly: s.updatesOnly}
 	for _, p := range s.paths {
 		sl.Subscription = append(sl.Subscription, &pb.Subscription{Path: gen.Path(false, p...)})
@@ -695,6 +788,7 @@ func (t *trial) startSub(s *sub) {
 		s.mu.Unlock()
 		if s.pattern != pNever && i == s.gateAt && atomic.LoadInt32(&s.released) == 0 {
 			s.gatedOnSync = m.GetSyncResponse()
+			s.enteredTick = t.now()
 			close(s.entered)
 			<-s.open
 		}
@@ -719,7 +813,12 @@ func (t *trial) startSub(s *sub) {
 	t.byReqMu.Lock()
 	t.byReq[s.req] = s
 	t.byReqMu.Unlock()
+}
+
+func (t *trial) launch(s *sub) {
 	s.callAt = time.Now()
+	s.callTick = t.now()
+	atomic.StoreInt32(&s.launched, 1)
 	go func() {
 		defer close(s.done)
 		defer func() {
@@ -742,6 +841,9 @@ func (t *trial) teardown() {
 	}
 	for _, s := range t.subs {
 		if s.stream == nil {
+			continue
+		}
+		if atomic.LoadInt32(&s.launched) == 0 {
 			continue
 		}
 		select {
@@ -812,14 +914,32 @@ func (t *trial) run() (sus *suspicion, judged bool) {
 	pert.MaxSleep = t.maxSlp
 	pert.Only = func(name string, _ interface{}) bool { return name == "subscribe.dequeue" }
 	pert.OnPoint = func(name string, key interface{}) {
-		if name == "subscribe.walk.end" {
+		switch name {
+		case "subscribe.walk.begin", "subscribe.walk.end":
 			if sr, ok := key.(*pb.SubscribeRequest); ok {
 				t.byReqMu.RLock()
 				s := t.byReq[sr]
 				t.byReqMu.RUnlock()
-				if s != nil {
+				if s == nil {
+					return
+				}
+				if name == "subscribe.walk.end" {
 					atomic.StoreInt32(&s.walkEnd, 1)
 				}
+				if s.joiner {
+					if name == "subscribe.walk.begin" {
+						atomic.AddInt32(&t.activeWalks, 1)
+					} else {
+						atomic.AddInt32(&t.activeWalks, -1)
+					}
+				}
+			}
+		case "coalesce.insert.checked":
+			// While a joiner walks the cache, producers inserting into the same
+			// queue are lined up so that the walk and the feed offer at the same
+			// instant (perturbation only).
+			if t.mode == "joinrace" && atomic.LoadInt32(&t.activeWalks) > 0 {
+				t.rendezvous(key)
 			}
 		}
 	}
@@ -828,7 +948,12 @@ func (t *trial) run() (sus *suspicion, judged bool) {
 	defer t.teardown()
 
 	for _, s := range t.subs {
-		t.startSub(s)
+		t.prep(s)
+		if s.joiner {
+			r.Count("subscribers_joining_while_the_writer_runs", 1)
+			continue // launched by the writer
+		}
+		t.launch(s)
 		r.Count("subscribers_stall_"+patName[s.pattern], 1)
 	}
 
@@ -836,6 +961,9 @@ func (t *trial) run() (sus *suspicion, judged bool) {
 	// it either delivered its sync_response or is parked in its gate.
 	for _, s := range t.subs {
 		s := s
+		if s.joiner {
+			continue
+		}
 		enteredAt := time.Time{}
 		ok := t.waitCond(stuckGrace, func() bool {
 			if s.isDone() || hasSync(s) {
@@ -874,6 +1002,15 @@ func (t *trial) run() (sus *suspicion, judged bool) {
 	for _, l := range t.byKey {
 		if l.exists {
 			l.prefInc = l.inc
+		}
+	}
+	if t.mode == "idlesync" {
+		// Clause (5c'), idle period starting right after the sync_response: nothing
+		// at all has been sent since, nothing is written for 4x the timeout; the
+		// timer must not be armed.
+		time.Sleep(4 * t.timeout)
+		if s2 := t.checkEnds(false); s2 != nil {
+			return s2, false
 		}
 	}
 	t.streamPhase = true
@@ -983,13 +1120,25 @@ func (t *trial) run() (sus *suspicion, judged bool) {
 
 	fullyJudged := true
 	switch t.mode {
-	case "stall":
+	case "stall", "joinrace":
 		// Release the until-writer-done subscribers one after the other; each
 		// must then drain its backlog (clauses 3, 4, 5b).
 		for _, s := range t.subs {
 			s := s
 			if s.pattern != pUntilDone || !s.blocked() {
 				continue
+			}
+			if s.joiner {
+				// Its snapshot walk must be over before the release, so that nothing
+				// is inserted into its queue any more.
+				since := time.Now()
+				t.waitCond(stuckGrace, func() bool {
+					return atomic.LoadInt32(&s.walkEnd) == 1 || time.Since(since) > 5*time.Second
+				})
+				if atomic.LoadInt32(&s.walkEnd) != 1 {
+					s.walkUnsure = true
+					r.Count("walk_end_not_observed", 1)
+				}
 			}
 			r.Count("stalls_until_writer_done_released", 1)
 			s.release()
@@ -1098,6 +1247,26 @@ func (t *trial) run() (sus *suspicion, judged bool) {
 	if !t.waitCond(stuckGrace, func() bool { return late.isDone() || hasSync(late) }) {
 		r.Inconclusive("late subscriber did not receive its snapshot")
 		return nil, false
+	}
+	if t.mode == "idlesync" {
+		// Same for the late subscriber: idle from its sync_response on, then a
+		// fresh update must still reach everybody.
+		time.Sleep(4 * t.timeout)
+		if s2 := t.checkEnds(false); s2 != nil {
+			return s2, false
+		}
+		t.writeSentinels(1)
+		t.lastGen = 1
+		for _, s := range t.subs {
+			s := s
+			if !t.waitCond(stuckGrace, func() bool { return s.isDone() || t.hasSentinel(s, 1) }) {
+				r.Inconclusive("an idle subscriber did not receive a fresh update although nobody was stalled")
+				return nil, false
+			}
+			if !s.isDone() {
+				r.Count("clause5_subscriber_idle_right_after_sync_survived_4x_timeout_and_got_next_update", 1)
+			}
+		}
 	}
 
 	// Judge.
